@@ -147,10 +147,14 @@ def check_case(ctx, case, via='cli', index=0):
             # at least two intervals); decided by the walker's own union-find
             connection = sqlite3.connect(db)
             try:
-                comps, _ = oracle_curves.main_body(connection, name, case['grid_step'])
+                unmet = False
+                for variant in ('all', 'must'):  # tie-ambiguous levels counted either way
+                    comps, _ = oracle_curves.main_body(connection, name, case['grid_step'], variant)
+                    if not comps or len(comps[0][1]) < 2 or (len(comps) > 1 and comps[1][0] == comps[0][0]):
+                        unmet = True
             finally:
                 connection.close()
-            if not comps or len(comps[0][1]) < 2 or (len(comps) > 1 and comps[1][0] == comps[0][0]):
+            if unmet:
                 rec.hit('precondition-not-met: {} pieces have no unique main body of 2+ pieces'.format(name))
                 return
         key = 'step-{}-fails:{}'.format(name, (desc or {}).get('type'))
